@@ -11,9 +11,16 @@
   * a machine that is in END after a call never yields an action in any later call.
   The specification predicates (`C04.outOK`, …) are the ones the monitor runs on the
   implementation's traces (MbVerif/Spec/C04.lean).
+  `C04_monitor_accepts_model` (`Proofs/MonitorAcceptA.lean`): the monitor itself, applied to the trace
+  the model produces (`LL.modelTrace`: per call the events, outcome, returned actions and snapshot, as
+  the driver records them), returns `none` for EVERY machine set, configuration, oracle and history —
+  no false alarm on an implementation that agrees with the model on returned actions and on which
+  machines are in END after each call; both rules of the monitor (per-call contract, no action for a
+  machine the previous snapshot shows in END) are discharged, no hypothesis is needed.
 -/
 import MbVerif.Proofs.C04
 import MbVerif.Proofs.EndAbs
+import MbVerif.Proofs.MonitorAcceptA
 
 namespace Mb.C04
 open Mb
@@ -102,5 +109,47 @@ example : Inv04 (Fw.init0 (σ := Unit)
     [{ allowedPaddingPackets := 0, maxPaddingFrac := 0, allowedBlockedMicrosec := 0, maxBlockingFrac := 0,
        states := [{ action := some (.cancel .all), counterA := none, counterB := none, transitions := [] }] }]
     0 0 0 ()) := Inv04.init0 _ _ _ _ _
+
+/-- **The monitor accepts the model.** For every machine set (validated or not), configuration,
+    oracle and history of calls, `C04.monitor` applied to the trace of the model reports no violation. -/
+theorem C04_monitor_accepts_model (ms : List Machine) (fp fb : F64) (t0 : Int) (rng : σ) (h : List Call) :
+    monitor (LL.modelTrace ρ ms fp fb t0 rng h) = none :=
+  MA.c04_monitor_model ρ ms fp fb t0 rng h
+
+section MonitorDemo
+
+/-- state 0: no action, NormalSent leads to state 1 with probability 1 -/
+private def dSt0 : State :=
+  { action := none, counterA := none, counterB := none,
+    transitions := (List.replicate 13 none).set 3 (some [{ target := 1, prob := 1065353216 }]) }
+/-- state 1: Cancel(All); NormalRecv leads to END with probability 1 -/
+private def dSt1 : State :=
+  { action := some (.cancel .all), counterA := none, counterB := none,
+    transitions := (List.replicate 13 none).set 0 (some [{ target := STATE_END, prob := 1065353216 }]) }
+private def dM : Machine :=
+  { allowedPaddingPackets := 0, maxPaddingFrac := 0, allowedBlockedMicrosec := 0, maxBlockingFrac := 0,
+    states := [dSt0, dSt1] }
+private def dρ : Oracle Unit := { u := fun _ => (0, ()), d := fun _ _ => (0, ()) }
+private def dTrace : FwTrace :=
+  LL.modelTrace dρ [dM, dM] 0 0 0 () [([.normalSent], 10), ([.normalRecv], 20), ([.normalSent, .normalRecv], 30)]
+
+/-- the same trace with the actions of call `k` replaced -/
+private def tamper (t : FwTrace) (k : Nat) (acts : List TAction) : FwTrace :=
+  { t with calls := t.calls.modify k (fun c => { c with actions := acts }) }
+
+/-- Non-vacuity of `C04_monitor_accepts_model`: no call faults (the monitor walks all three), the
+    first call returns one action per machine, the second moves both machines to END, the third
+    returns nothing — and the monitor's rules are live: an action for an ended machine, ids out of
+    order, an unknown machine id, a kind the machine does not define are all rejected. -/
+example : dTrace.calls.map (·.res) = [.ok, .ok, .ok] ∧
+    dTrace.calls.map (·.actions) = [[.cancel 0 .all, .cancel 1 .all], [], []] ∧
+    dTrace.calls.map (fun c => endedOf c.snap) = [[], [0, 1], [0, 1]] ∧
+    monitor dTrace = none ∧
+    (monitor (tamper dTrace 2 [.cancel 1 .all])).isSome = true ∧
+    (monitor (tamper dTrace 0 [.cancel 1 .all, .cancel 0 .all])).isSome = true ∧
+    (monitor (tamper dTrace 0 [.cancel 2 .all])).isSome = true ∧
+    (monitor (tamper dTrace 0 [.cancel 0 .action])).isSome = true := by decide +kernel
+
+end MonitorDemo
 
 end Mb.C04
